@@ -12,7 +12,7 @@ from fractions import Fraction
 import z3
 
 from vlib import env, gen
-from vlib.zrun import explore_and_prove, eq_term, concretize, pyrepr
+from vlib.zrun import wrapper_exc, explore_and_prove, eq_term, concretize, pyrepr
 from vlib.zsym import Real, SymNum, SymTypeError, lift, model_value
 
 META = {
@@ -115,7 +115,7 @@ def task_euler(systems):
         for p, m, g in o.failed[:1]:
             yv = dict(zip(names, concretize(m, y)))
             fv = dict(zip(names, concretize(m, f)))
-            res["violations"].append(dict(key="euler_step:%s" % p.kind, soft=isinstance(p.value, SymTypeError), desc="system %s y=%s f=%s -> %r" % (rxn_strs, yv, fv, p.value),
+            res["violations"].append(dict(key="euler_step:%s" % p.kind, soft=wrapper_exc(p.value), desc="system %s y=%s f=%s -> %r" % (rxn_strs, yv, fv, p.value),
                                           replay_src=REPLAY % dict(rxns=rxn_strs, y=pyrepr(yv), f=pyrepr(fv))))
         if tw is None:
             ot = explore_and_prove(fn, assum, lambda p: goal(p, True), max_paths=60000, deadline_s=60, max_fail=1)
